@@ -10,7 +10,7 @@ from ref import sniffer as SN
 PROPERTY = 'C16'
 LEVEL = 'exploration'
 RULE = ('cases = (a) DM1 end to end: a sender CA with Dm1.start_send(callback, cycle) whose callback returns, per cycle, fresh lamp states and 1..400 '
-        'trouble codes (first code tagged with the cycle number), Dm1 subscribers on 1-2 other stacks, either data link layer (single frame, BAM, '
+        'trouble codes (first code tagged with the cycle number), Dm1 subscribers on 1-2 other stacks (plus a subscriber that was unsubscribed again), in 40 % of the cases a second independent DM1 sender on a third stack, either data link layer (single frame, BAM, '
         'FD Multi-PG <= 14 codes, FD BAM), SPN/FMI/OC on boundaries (0, 1, 0xFFFF, 0x10000, 0x7FFFF, 31, 127) and random, lamp combinations from all '
         '5^4, cycle times above the transfer time, stop_send after 2-5 cycles then 3 more cycle times of observation; oracle: subscriber arguments '
         'equal what the callback returned for that cycle, in order; the DM1 payload reassembled from the bus by the independent sniffer equals the '
@@ -89,6 +89,27 @@ def run_dm1(case):
         d = j.Dm1(rca)
         got[i] = []
         d.subscribe(lambda sa, lamps, dtcs, ts, i=i: got[i].append((sim.now, sa, dict(lamps), [dict(x) for x in dtcs])))
+        if rng.random() < 0.4:
+            # a subscriber that is removed again before anything is sent must never be called
+            ghost = lambda sa, lamps, dtcs, ts, i=i: got[i].append((sim.now, 'removed-subscriber', {}, []))
+            d.subscribe(ghost)
+            d.unsubscribe(ghost)
+    # a second, independent DM1 sender on another stack (its own address, codes and cycle) in some cases
+    sent2 = []
+    s2_addr = None
+    if rng.random() < 0.4:
+        S2 = W.stack('S2')
+        s2_addr = 121 + rng.randrange(6)          # the first sender's address is below 120
+        sca2 = W.ca(S2, s2_addr, identity_number=2)
+        n2 = rng.choice([1, 1, 3])
+
+        def cb2():
+            dt = [rnd_dtc(rng) for _ in range(n2)]
+            dt[0]['oc'] = (len(sent2) + 1) & 0x7F
+            lm = {'pl': rng.randrange(5), 'mil': rng.randrange(5), 'awl': 0, 'rsl': 0}
+            sent2.append((sim.now, dict(lm), [dict(x) for x in dt]))
+            return dict(lm), [dict(x) for x in dt]
+        j.Dm1(sca2).start_send(cb2, rng.choice([0.17, 0.33, 1.1]))     # longer than its own transfer (<= 2 BAM packets)
     W.run(0.01)
     nd = case['ndtc']
     size = 2 + 4 * nd
@@ -145,7 +166,15 @@ def run_dm1(case):
         viol.add('dm1_cycle_count', '%d DM1 cycles ran in %d cycle times before stop_send' % (n_at_stop, ncycles), **tag)
     # 2. subscribers got every cycle exactly, in order
     for i in range(nrx):
-        rec = got[i]
+        other = [r for r in got[i] if r[1] != s_addr]
+        # notifications from the second sender: each equals what it supplied, in order
+        for k, r in enumerate(other):
+            if r[1] != s2_addr or k >= len(sent2) or r[2] != sent2[k][1] or r[3] != sent2[k][2]:
+                viol.add('dm1_other_sender', 'subscriber %d: notification #%d from SA %r does not match what the second sender (SA %r) supplied' % (i, k, r[1], s2_addr), **tag)
+                break
+        if s2_addr is not None and len(other) < len(sent2) - 1:
+            viol.add('dm1_other_sender', 'subscriber %d got %d of %d DM1 of the second sender' % (i, len(other), len(sent2)), how='missing', **tag)
+        rec = [r for r in got[i] if r[1] == s_addr]
         if len(rec) != len(sent):
             viol.add('dm1_delivery_count', 'subscriber %d got %d DM1 notifications for %d cycles (ndtc %d)' % (i, len(rec), len(sent), nd),
                      how='missing' if len(rec) < len(sent) else 'extra', **tag)
